@@ -351,7 +351,8 @@ def rule_member(F, rep):
     names = chk.body.local_names()
     byname = {names.get(l): l for l in us}
     if not {"start", "end", "mid"} <= set(byname):
-        raise kwalk.WalkLimit("do_std_set_member_check: parameter names start/end/mid")
+        # renamed parameters: fall back to their declaration order (start, end, mid)
+        byname = {"start": us[0], "end": us[1], "mid": us[2]}
     cases = [(2, 9, 5), (5, 9, 5), (2, 5, 5), (5, 5, 5)]
     for o in ORD:
         for (st_, en, mid) in cases:
